@@ -6,6 +6,7 @@ python3 harness/mkmanifest.py || exit 1
 python3 harness/mkdesigntables.py || exit 1
 cmd=$(python3 -c "import json;print(json.load(open('MANIFEST.json'))['setup_cmd'])")
 if (eval "$cmd") > /tmp/safecommit.log 2>&1; then
+  /venv/bin/python harness/mkaxioms.py > /dev/null 2>&1   # AXIOMS.md: every property theorem with its axioms
   git add -A && git commit -qm "$1" && echo "committed: $1"
 else
   echo "BUILD FAILED - not committed"; grep -E "error" /tmp/safecommit.log | head -5
